@@ -393,6 +393,52 @@ theorem C04_query_object_exploded_roundtrip (required : Bool) (name : Str) (kvs 
 
 example : Security.NameOk [118] := by intro b hb; simp at hb; subst hb; decide
 
+/-- An unexploded object query parameter (`name=k1,v1,k2,v2`): member names that need no escaping, names and values
+without a comma, any other bytes in the values. -/
+theorem C04_query_object_unexploded_roundtrip (required : Bool) (name : Str) (kvs : List (Str × Str)) (hne : kvs ≠ [])
+    (hn : Security.NameOk name) (hk : ∀ kv ∈ kvs, Security.NameOk kv.1) (hkc : ∀ kv ∈ kvs, cComma ∉ kv.1)
+    (hb : ∀ kv ∈ kvs, ∀ b ∈ kv.2, b < 256) (hvc : ∀ kv ∈ kvs, cComma ∉ kv.2) :
+    ∃ q, parseQuery (styleParam .form false name .query (.obj kvs)) = .ok q ∧
+      bindQuery false required name .obj [] q = .ok (some (.obj kvs)) := by
+  let w := join [cComma] (objParts false .query kvs)
+  have hfrag : styleParam .form false name .query (.obj kvs) = Security.segN name w := by
+    simp [styleParam, objPrefixSep, Security.segN, w, cEq]
+  have hw : ∀ c ∈ w, c ≠ 38 ∧ c ≠ 59 ∧ c ≠ 61 := by
+    intro c hc
+    rcases Security.mem_join _ _ c hc with hsep | ⟨l, hl, hcl⟩
+    · simp only [List.mem_singleton, cComma] at hsep
+      omega
+    · simp only [objParts, Bool.false_eq_true, if_false, List.mem_flatMap, List.mem_cons, List.not_mem_nil, or_false] at hl
+      obtain ⟨kv, hkv, rfl | rfl⟩ := hl
+      · exact (hk kv hkv c hcl).2
+      · exact Security.esc_ok kv.2 (hb kv hkv) c (by simpa using hcl)
+  have hsep : plainStr .query [cComma] := by
+    intro b hb'; simp only [List.mem_singleton] at hb'; subst hb'; decide
+  have hdec := (objParts_dec false .query (by decide) [cComma] hsep kvs
+    (fun kv hkv b hb' => (hk kv hkv b hb').1) hb).unesc
+  have hd : unescape .query w = some (join [cComma] (rawParts false kvs)) := by
+    simp only [unescLoc] at hdec
+    cases hu : unescape .query (join [cComma] (objParts false .query kvs)) with
+    | none => simp [hu] at hdec
+    | some r => simp only [hu, Except.ok.injEq] at hdec; simp [hdec]
+  refine ⟨[(name, [join [cComma] (rawParts false kvs)])], ?_, ?_⟩
+  · rw [hfrag, Security.parseQuery_eq, split_no_sep cAmp _ (Security.segN_no_amp _ _ hn hw)]
+    simp only [List.foldlM_cons, List.foldlM_nil, Security.parseStep_segN [] name w _ hn hw hd]
+    rfl
+  · have hs := split_join cComma (rawParts false kvs) (rawParts_ne_nil false kvs hne)
+      (rawParts_nodelim false cComma (by decide) kvs hkc hvc)
+    have hp : pairUp (rawParts false kvs) = some kvs := by simpa [rawParts] using pairUp_raw kvs
+    simp [bindQuery, qLookup, hs, hp]
+
+example : ∃ q, parseQuery (styleParam .form false [112] .query (.obj [([97], [49, 32, 38]), ([98], [])])) = .ok q ∧
+    bindQuery false true [112] .obj [] q = .ok (some (.obj [([97], [49, 32, 38]), ([98], [])])) :=
+  C04_query_object_unexploded_roundtrip true [112] _ (by simp)
+    (by intro b hb; simp at hb; subst hb; decide)
+    (by intro kv hkv b hb; simp at hkv; rcases hkv with rfl | rfl <;> (simp at hb; subst hb; decide))
+    (by intro kv hkv; simp at hkv; rcases hkv with rfl | rfl <;> decide)
+    (by intro kv hkv b hb; simp at hkv; rcases hkv with rfl | rfl <;> simp at hb; rcases hb with rfl | rfl | rfl <;> decide)
+    (by intro kv hkv; simp at hkv; rcases hkv with rfl | rfl <;> decide)
+
 /-! ### deepObject (flat object of strings) -/
 
 /-- A deepObject query parameter whose member names and values need no escaping arrives as the members
